@@ -819,6 +819,12 @@ func genEp(h *rt.H, id string) string {
 		joinList(genParents(h)))
 }
 
+func sortedCSV(s string) string {
+	l := splitList(s)
+	sort.Strings(l)
+	return joinList(l)
+}
+
 func genCase(h *rt.H) []string {
 	sup := "0"
 	if h.Bool() {
@@ -839,6 +845,61 @@ func genCase(h *rt.H) []string {
 		defs = append(defs, d)
 	}
 	epIDs := []string{"w1", "w2", "w3", "h1", "n1", "n2"}
+	// reorderEp re-issues the latest `ep` line of an endpoint with ONLY its parent list permuted
+	// (labels, nets, ports and the set of profiles unchanged): inherited labels are
+	// first-profile-wins, so membership may have to change although "nothing but the order" did.
+	reorderEp := func() (string, bool) {
+		for j := len(ops) - 1; j >= 1; j-- {
+			w := strings.Fields(ops[j])
+			if w[0] == "delep" {
+				continue
+			}
+			if w[0] != "ep" {
+				continue
+			}
+			ps := splitList(w[6])
+			if len(ps) < 2 {
+				continue
+			}
+			// only the most recent op for that id counts
+			stale := false
+			for k := len(ops) - 1; k > j; k-- {
+				wk := strings.Fields(ops[k])
+				if (wk[0] == "ep" && wk[2] == w[2]) || (wk[0] == "delep" && wk[1] == w[2]) {
+					stale = true
+				}
+			}
+			if stale {
+				continue
+			}
+			h.Rng.Shuffle(len(ps), func(a, b int) { ps[a], ps[b] = ps[b], ps[a] })
+			if joinList(ps) == w[6] {
+				ps[0], ps[1] = ps[1], ps[0]
+			}
+			w[6] = joinList(ps)
+			return strings.Join(w, " "), true
+		}
+		return "", false
+	}
+	if h.Chance(0.25) {
+		// parents that define the SAME label key with DIFFERENT values, a selector on that key, an
+		// endpoint inheriting from both, then the same endpoint with the profile order swapped
+		k := rt.Pick(h, labKeys)
+		d := setDef{id: "s0", raw: fmt.Sprintf("%s == 'x'", k)}
+		id := rt.Pick(h, epIDs)
+		ep := strings.Fields(genEp(h, id))
+		ep[3] = "-" // no own labels: everything is inherited
+		if ep[4] == "-" {
+			ep[4] = tokFromString("10.0.0.1").String()
+		}
+		ep[6] = "p1,p2"
+		ops = append(ops, fmt.Sprintf("parent p1 %s=x", k), fmt.Sprintf("parent p2 %s=y", k), ipsetLine(d), strings.Join(ep, " "))
+		defs[0] = d
+		if h.Bool() {
+			ep[6] = "p2,p1"
+			ops = append(ops, strings.Join(ep, " "))
+		}
+	}
 	n := 6 + h.Intn(30)
 	for i := 0; i < n; i++ {
 		switch r := h.Intn(100); {
@@ -846,6 +907,12 @@ func genCase(h *rt.H) []string {
 			ops = append(ops, ipsetLine(rt.Pick(h, defs)))
 		case r < 32:
 			ops = append(ops, "delipset "+rt.Pick(h, defs).id)
+		case r < 40:
+			if l, ok := reorderEp(); ok {
+				ops = append(ops, l)
+				break
+			}
+			ops = append(ops, genEp(h, rt.Pick(h, epIDs)))
 		case r < 68:
 			ops = append(ops, genEp(h, rt.Pick(h, epIDs)))
 		case r < 76:
@@ -866,10 +933,11 @@ func genCase(h *rt.H) []string {
 func main() {
 	h := rt.New()
 	defer h.Close()
-	h.Rule = "case = one index (suppressor off/on) + 6..35 ops over {ipset, delipset, ep (WEP/HEP/NetworkSet), delep, parent, delparent, repeat-earlier-op}; " +
+	h.Rule = "case = one index (suppressor off/on) + 6..35 ops over {ipset, delipset, ep (WEP/HEP/NetworkSet), re-issue of an endpoint with ONLY its profile order permuted (8%), delep, parent, delparent, repeat-earlier-op}; 25% of cases start with two profiles giving the same label key different values + a selector on it + an endpoint inheriting from both; " +
 		"selectors from the real grammar over labels a,b,c; nets from pools with shared IPs, nested/duplicate/non-canonical CIDRs, /0, v4+v6; named ports with mixed protocols; " +
 		"distinct = distinct op sequence; non-trivial = at some point an IP set has >=1 member and a member is contributed by >=2 endpoints or a CIDR is suppressed"
 	s := &state{}
+	prevParents, prevRest := map[string]string{}, map[string]string{}
 	run := func(ops []string, tag string) {
 		h.Case(tag)
 		nontriv := false
@@ -877,6 +945,18 @@ func main() {
 			out := exec(h, s, op)
 			h.Op(op, out)
 			h.Count("op:" + strings.Fields(op)[0])
+			if fw := strings.Fields(op); fw[0] == "ep" && prevParents[fw[2]] != "" && prevParents[fw[2]] != fw[6] && prevRest[fw[2]] == strings.Join(append(append([]string{}, fw[:6]...), sortedCSV(fw[6])), " ") {
+				h.Count("ep:parent-order-only-change")
+			}
+			if fw := strings.Fields(op); fw[0] == "ep" {
+				prevParents[fw[2]] = fw[6]
+				prevRest[fw[2]] = strings.Join(append(append([]string{}, fw[:6]...), sortedCSV(fw[6])), " ")
+			} else if fw[0] == "delep" {
+				delete(prevParents, fw[1])
+				delete(prevRest, fw[1])
+			} else if fw[0] == "new" {
+				prevParents, prevRest = map[string]string{}, map[string]string{}
+			}
 			if strings.Contains(out, "=2") || strings.Contains(out, "=3") {
 				nontriv = true
 				h.Count("shared-member-lines")
